@@ -722,6 +722,7 @@ def c17(ctx):
                         constants={"MaxDepth": "= %d" % md}, workers=16)
     ctx.replay(out, "c17", seeds=(None,) if ctx.quick else (None, ctx.seed))
     scale_family(ctx, "c17", ["deep", "chain", "strchain", "manyargs"])
+    order_family(ctx, "c17")
     scripts = [s for s in repo_test_scripts() if "error" in s[0] or "stacktrace" in s[0]]
     corpus_validate(ctx, scripts, "c17tests")
 
@@ -775,6 +776,12 @@ BOUNDARY_PROGRAMS = [
     ("print($\"${\"5\u20ac\" + \" / \" + \"\u20ac5\"}\")\n", "5\u20ac / \u20ac5\n"),
     ("print((\"\u00e9\"[0:1] + \"\u00e9\"[1:2]) == \"\u00e9\")\n", "true\n"),
     ("print(\"a\u00e9\"[2:])\n", None),
+    ("fn area(side) { return $\"area: ${side * 3\u00b2}\"; }\nprint(area(2))\n", None),
+    ("print($\"${1\u00bd}\")\n", None),
+    ("o := {\"len\": \"h\u00e9llo\"->len}\nprint(o.len())\n", None),
+    ("o := {\"type\": [1]->type}\nprint(o[\"type\"]())\n", "object\n"),
+    ("f := \"h\u00e9\"->len\nprint(f())\n", "3\n"),
+    ("print(\"na\u00efve\"[:3]->len())\n", None),
 ]
 
 
@@ -1052,6 +1059,12 @@ def c03(ctx):
                 corpus.append(bs.decode("utf-8"))
             except UnicodeDecodeError:
                 pass
+    # an offending token that is a long literal with multi-byte text (the message quotes the token)
+    longlit = "Siobh\u00e1n \u00d3 Faol\u00e1in agus M\u00e1ire N\u00ed Chathasaigh " + "\u00e9\u20ac" * 12
+    for k in range(0, 6):
+        corpus.append("xs := [1 \"%s%s\"]\n" % ("a" * k, longlit))
+        corpus.append("print(1)\nx := 2 $\"%s%s${x}\"\n" % ("b" * k, longlit))
+        corpus.append("if \"%s%s\" \"%s\" { }\n" % ("c" * k, longlit, longlit))
     corpus = sorted(set(corpus))
     outs, st = lx.spec_lex(corpus, "c03corpus")
     ctx.states += st["distinct"]
@@ -1124,6 +1137,18 @@ def c09(ctx):
         ctx.sample({"text": lx.text_of(o["src"]), "tokens": [t["k"] for t in o["toks"]]})
     # the lexer's decision on a literal does not depend on the line layout around it
     int_contexts(ctx, "c09", "C09")
+    # the last line needs no line break: a final comment, token, blank or carriage return ends the text
+    bodies = ["print(1)", "print(1) # c", "print(1)\n# c", "print(1)\n#", "# only", "#", "print(1);", "print(1) ;# \u00e9",
+              "print(1)\r", "print(1) \t", "x := 1 +\n1", "print($\"${1 # c\n}\")", "print($\"${\"a\" # c}\")", "{\n}", "print(\n1\n)"]
+    etexts = sorted(set(bodies + [b + "\n" for b in bodies] + [b + "\r\n" for b in bodies]))
+    eouts, est = lx.spec_lex(etexts, "c09eof")
+    ctx.states += est["distinct"]
+    ctx.transitions += est["generated"]
+    ctx.models["SeedLexRun:c09eof"] = {"module": "SeedLexRun", "texts": len(etexts),
+                                       "distinct_states": est["distinct"], "states_generated": est["generated"]}
+    lx.check_texts(ctx, etexts, eouts, "c09eof", "C09")
+    for t in etexts:
+        ctx.nontrivial.add("eof:" + t)
     opts = {"hex_prob": 0.3, "underscore_prob": 0.5, "extra_parens": 0.15, "wild": 0.5}
     seeds = tuple(ctx.seed * 100 + i for i in range(nseeds))
     out1 = ctx.run_model("MC_C01", "C01ParamsTiny" if ctx.quick else "C01Params", max_steps=4000)
@@ -1199,6 +1224,10 @@ PLANTS = [
     ("3²", "int", 1, "unexpected '²'"),
     ("caf\u00e9", "word", 3, "unexpected 'é'"),
     ("12\u20ac", "int", 2, "unexpected '€'"),
+    ('1 "Siobh\u00e1n \u00d3 Faol\u00e1in agus M\u00e1ire N\u00ed Chathasaigh \u00e1\u00e9\u00ed\u00f3\u00fa \u20ac\u20ac\u20ac\u20ac\u20ac\u20ac\u20ac\u20ac"', "int", 2,
+     "unexpected '\"Siobh\u00e1n"),
+    ('x $"\u00e9\u00e9\u00e9\u00e9\u00e9\u00e9\u00e9\u00e9\u00e9\u00e9\u00e9\u00e9\u00e9\u00e9\u00e9\u00e9\u00e9\u00e9\u00e9\u00e9\u00e9\u00e9\u00e9\u00e9\u00e9\u00e9\u00e9\u00e9\u00e9\u00e9"', "word", 2,
+     "unexpected '\"\u00e9\u00e9"),
 ]
 # a collect marker where only a spread may stand, a spread where nothing may follow (C13)
 SPREAD_PLANTS = [
@@ -1400,7 +1429,8 @@ def c08(ctx):
              ("value", "r%d := {\"k\": %s}", lambda st: st["rhs"]["props"][0]["value"], True),
              ("index", "r%d := xs[%s]", lambda st: st["rhs"]["i"], False),
              ("cond", "r%d := 0; if %s { }", lambda st: st["branches"][0]["cond"], False),
-             ("paren", "r%d := (%s)->type()", lambda st: st["rhs"]["f"]["e"], True)]
+             ("paren", "r%d := (%s)->type()", lambda st: st["rhs"]["f"]["e"], True),
+             ("stmt", "r%d := x9\n%s", lambda st: st["e"], False)]
     step = 7 if ctx.quick else 2
     hcases = [c for c in cases[::step] if not any(t["k"] == "op" and t["op"] == ".." for t in c["toks"])]
     hb = [hcases[i:i + B] for i in range(0, len(hcases), B)]
@@ -1416,7 +1446,7 @@ def c08(ctx):
     hjobs = [(hi, bi) for hi in range(len(HOSTS)) for bi in range(len(hb))]
     for (hi, bi), (ast, se) in zip(hjobs, sv.pmap(hosted, hjobs)):
         name, fmt, get, tight = HOSTS[hi]
-        sts = [x for x in (ast or []) if not (x.get("t") == "declare" and name == "cond")] if ast else None
+        sts = [x for x in (ast or []) if not (x.get("t") == "declare" and name in ("cond", "stmt"))] if ast else None
         if ast is None or len(sts) != len(hb[bi]):
             ctx.violation("the real parser rejected generated expressions in %s position: %s"
                           % (name, se.decode(errors="replace")[:300]),
@@ -1632,6 +1662,8 @@ def c06(ctx):
     int_contexts(ctx, "c06", "C06")
     scale_family(ctx, "c06", ["range", "chain"])
     boundary_programs(ctx, "c06")
+    oute = ctx.run_model("MC_C08E", "C08EParams", progof="C08EProgOf", name="MC_C08E_c06")
+    ctx.replay(oute, "c06-groupings", seeds=(None,))
     # op-assignment = assignment also under shadowing (the target is the binding a read sees)
     outs = ctx.run_model("MC_C06", "C06Params", invariants=["OpAssignIsAssign"], props=FRAME_PROPS + ["ShadowFrame"])
     ctx.replay(outs, "c06-shadow", seeds=(None,) if ctx.quick else (None, ctx.seed))
